@@ -104,6 +104,19 @@ def normalize(root, label="w"):
     """Replace every symbolic number stored in the heap by one opaque symbol per slot."""
     seen = set()
 
+    def norm(x, path):
+        """value to store in the slot `path` (tuples are rebuilt, containers are normalised in place)"""
+        if _is_symnum(x):
+            return _old(x, path)
+        if isinstance(x, tuple) and not isinstance(x, NTuple):
+            new = tuple(norm(y, f"{path}[{j}]") for j, y in enumerate(x))
+            return new if any(a is not b for a, b in zip(new, x)) else x
+        if isinstance(x, NTuple):
+            new = [norm(y, f"{path}[{j}]") for j, y in enumerate(x)]
+            return NTuple(x.cls, new) if any(a is not b for a, b in zip(new, x)) else x
+        walk(x, path)
+        return x
+
     def walk(v, path):
         if isinstance(v, ConstObj):
             return
@@ -112,36 +125,22 @@ def normalize(root, label="w"):
                 return
             seen.add(id(v))
             for k in list(v.fields):
-                x = v.fields[k]
-                if _is_symnum(x):
-                    v.fields[k] = _old(x, f"{path}.{k}")
-                else:
-                    walk(x, f"{path}.{k}")
+                v.fields[k] = norm(v.fields[k], f"{path}.{k}")
         elif isinstance(v, DictV):
             if id(v) in seen:
                 return
             seen.add(id(v))
             for k in list(v.items):
-                x = v.items[k]
-                if _is_symnum(x):
-                    v.items[k] = _old(x, f"{path}[{k}]")
-                else:
-                    walk(x, f"{path}[{k}]")
+                v.items[k] = norm(v.items[k], f"{path}[{k}]")
         elif isinstance(v, ListV):
             if id(v) in seen:
                 return
             seen.add(id(v))
-            for j, x in enumerate(v.items):
-                if _is_symnum(x):
-                    v.items[j] = _old(x, f"{path}[{j}]")
-                else:
-                    walk(x, f"{path}[{j}]")
+            for j in range(len(v.items)):
+                v.items[j] = norm(v.items[j], f"{path}[{j}]")
         elif isinstance(v, dict):
-            for k, x in list(v.items()):
-                if _is_symnum(x):
-                    v[k] = _old(x, f"{path}.{k}")
-                else:
-                    walk(x, f"{path}.{k}")
+            for k in list(v):
+                v[k] = norm(v[k], f"{path}.{k}")
         elif isinstance(v, ClassV) and v.mutable:
             if id(v) in seen:
                 return
@@ -151,9 +150,6 @@ def normalize(root, label="w"):
         elif isinstance(v, LazyV):
             if v.cell[0] is not UNRESOLVED:
                 walk(v.cell[0], path)
-        elif isinstance(v, tuple):
-            for j, x in enumerate(v):
-                walk(x, f"{path}[{j}]")
 
     walk(root, label)
 
@@ -168,6 +164,15 @@ def numeric_slots(root, label="w"):
 
         return (isinstance(x, (int, Fraction)) and not isinstance(x, bool)) or isinstance(x, (Lin, App)) or (isinstance(x, Sym) and x.kind == "num")
 
+    def visit(x, path):
+        if isnum(x):
+            out[path] = x
+        elif isinstance(x, tuple):
+            for j, y in enumerate(x):
+                visit(y, f"{path}[{j}]")
+        else:
+            walk(x, path)
+
     def walk(v, path):
         if isinstance(v, ConstObj):
             return
@@ -176,43 +181,28 @@ def numeric_slots(root, label="w"):
                 return
             seen.add(id(v))
             for k, x in v.fields.items():
-                if isnum(x):
-                    out[f"{path}.{k}"] = x
-                else:
-                    walk(x, f"{path}.{k}")
+                visit(x, f"{path}.{k}")
         elif isinstance(v, DictV):
             if id(v) in seen:
                 return
             seen.add(id(v))
             for k, x in v.items.items():
-                if isnum(x):
-                    out[f"{path}[{k}]"] = x
-                else:
-                    walk(x, f"{path}[{k}]")
+                visit(x, f"{path}[{k}]")
         elif isinstance(v, ListV):
             if id(v) in seen:
                 return
             seen.add(id(v))
             for j, x in enumerate(v.items):
-                if isnum(x):
-                    out[f"{path}[{j}]"] = x
-                else:
-                    walk(x, f"{path}[{j}]")
+                visit(x, f"{path}[{j}]")
         elif isinstance(v, dict):
             for k, x in v.items():
-                if isnum(x):
-                    out[f"{path}.{k}"] = x
-                else:
-                    walk(x, f"{path}.{k}")
+                visit(x, f"{path}.{k}")
         elif isinstance(v, ClassV) and v.mutable:
             if id(v) in seen:
                 return
             seen.add(id(v))
             for k, x in v.ns.items():
                 walk(x, f"{v.name}.{k}")
-        elif isinstance(v, tuple):
-            for j, x in enumerate(v):
-                walk(x, f"{path}[{j}]")
 
     walk(root, label)
     return out
@@ -334,7 +324,7 @@ def close(program, world0, ghost0, client_actions, run_action, monitor, make_hoo
         if os.environ.get('VERIF_DEBUG') and res.states % 50 == 0:
             print('..', res.states, len(seen), len(queue), res.paths, round(time.time(),0)%10000, file=sys.stderr)
         if res.states > max_states:
-            raise RuntimeError("typestate budget exceeded")
+            raise Unsupported(f"typestate budget exceeded ({max_states}): the stored values are not abstracted to a finite set")
         for action in client_actions(world, ghost):
             ck = (key[0], action)
             runs = trans_cache.get(ck)
